@@ -445,6 +445,15 @@ func (p *queryPlan) canPushLimitDown(cls *semantic.GraphClause) bool {
 		cls.PID == "" && cls.OID == "" && len(cls.Bindings()) == 3
 }
 
+// bindsNoValue returns true if no triple matched by the clause contributes a
+// value to the row: the clause has no binding, alias or extraction (bindings
+// used as time bounds are read from the row, they are not set by the clause).
+func bindsNoValue(cls *semantic.GraphClause) bool {
+	return cls.SBinding == "" && cls.SAlias == "" && cls.STypeAlias == "" && cls.SIDAlias == "" &&
+		cls.PBinding == "" && cls.PAlias == "" && cls.PIDAlias == "" && cls.PAnchorBinding == "" && cls.PAnchorAlias == "" &&
+		cls.OBinding == "" && cls.OAlias == "" && cls.OIDAlias == "" && cls.OTypeAlias == "" && cls.OAnchorBinding == "" && cls.OAnchorAlias == ""
+}
+
 // getBoundValueForComponent return the unique bound value if available on
 // the provided row.
 func getBoundValueForComponent(r table.Row, bs []string) *table.Cell {
@@ -524,6 +533,23 @@ func (p *queryPlan) addSpecifiedData(ctx context.Context, r table.Row, cls *sema
 			Msgs: []string{fmt.Sprintf("Corrected clause: %v", cls)},
 		}
 	})
+
+	if bindsNoValue(cls) {
+		// The clause only uses bindings of the row (as time bounds): it adds
+		// no value to the row and only requires a matching triple to exist.
+		// Its matches cannot be kept as rows (a row without cells is empty),
+		// so fetch them under a scratch alias and look at whether there are any.
+		tmpCls := *cls
+		tmpCls.SAlias = "?_match"
+		tbl, err := simpleFetch(ctx, p.grfs, &tmpCls, lo, 0, p.chanSize, p.tracer)
+		if err != nil {
+			return err
+		}
+		if tbl.NumRows() > 0 || cls.Optional {
+			p.tbl.AddRow(r)
+		}
+		return nil
+	}
 
 	stmLimit := int64(0)
 	if p.canPushLimitDown(cls) {
